@@ -118,6 +118,11 @@ const FAILERS: &[(&str, &str)] = &[
     ("\\( never closed", "unterminated-comment"),
     ("local", "local-without-name"),
     ("7 ! true", "store-readonly"),
+    // a meta block that tries to change a variable of the surroundings: refused, and nothing changed
+    ("#( 99 ! hv0 #)", "meta-store-to-outer-variable"),
+    ("#( big #)", "meta-changes-byte-order"),
+    ("#( 16 ! offset #)", "meta-store-to-builtin-variable"),
+    ("#( hv0 1 + ! hv0 #)", "meta-update-outer-variable"),
     // the failing token sits in text that the source itself pushed on top of its own text
     ("#( \"3 nosuch-injected\" ~)", "injected-unknown-word"),
     ("#( \"4 12x 5\" ~)", "injected-bad-literal"),
@@ -139,7 +144,11 @@ const TRAILERS: &[&str] = &[
 ];
 
 fn history_source(rng: &mut Rng, k: usize) -> String {
-    match rng.below(7) {
+    match rng.below(9) {
+        // sources that fail while running (inside loops, inside a called word): what they leave behind - loop records,
+        // frames, stack items - is part of the history too
+        7 => rng.pick_str(&["3 0 do I 1 == if nil neg then loop", "[ 4 5 ] foreach 2 0 do 1 0 / loop loop", "1 0 /", "2 0 do 7 0 do I 3 == if \"x\" neg then loop loop"]).to_string(),
+        8 => format!(": hf{} {} ; hf{}", k, rng.pick(&["1 0 rem", "3 0 do nil 1 + loop", "local a a 0 /", "4 1 do 2 0 do J 2 == if [ ] 3 nth then loop loop"]), k),
         0 => format!("{} {}", rng.range(-5, 50), rng.range(0, 9)),
         1 => format!(": hw{} {} ;", k, rng.pick(&["1 +", "dup *", "drop 7", "local a a a"])),
         2 => format!("{} var hv{}", rng.range(0, 99), k),
@@ -154,7 +163,7 @@ fn history_source(rng: &mut Rng, k: usize) -> String {
 }
 
 fn probe_source(rng: &mut Rng, k: usize) -> (String, &'static str) {
-    match rng.below(20) {
+    match rng.below(21) {
         0 => (format!("{}", rng.range(0, 99)), "push"),
         1 => ("depth".into(), "depth"),
         2 => (format!("{} var pv{} pv{}", rng.range(0, 9), k, k), "var"),
@@ -174,6 +183,7 @@ fn probe_source(rng: &mut Rng, k: usize) -> (String, &'static str) {
         16 => ("HC0".into(), "read-history-const"),
         17 => ("hv0".into(), "read-history-var"),
         18 => ("3 hw0".into(), "call-history-word"),
+        19 => (rng.pick_str(&["I", "J", "1 0 do J loop", "big? offset hv0 3 collect"]).to_string(), "loop-index-or-variables"),
         _ => ("drop".into(), "drop"),
     }
 }
@@ -207,11 +217,18 @@ impl C10 {
             let ra = submit(&mut a, &src, style);
             let rb = submit(&mut b, &src, style);
             log.push(format!("H{} [{}] {}", k, if style == 0 { "eval" } else { "compile+run" }, src));
-            if !matches!(ra, Ok(Ok(()))) || !matches!(rb, Ok(Ok(()))) {
-                // histories are made of accepted sources only
-                obs.skipped += 1;
-                obs.count("skipped:history-source-failed");
-                return;
+            match (&ra, &rb) {
+                (Ok(Ok(())), Ok(Ok(()))) => {}
+                (Ok(Err(ea)), Ok(Err(eb))) if show_err(ea) == show_err(eb) && !src.contains("12x") => {
+                    // failed at run time, the same way in both
+                    obs.count("history_sources_failing_at_run_time");
+                    log.push("   (failed while running)".into());
+                }
+                _ => {
+                    obs.skipped += 1;
+                    obs.count("skipped:history-source-failed");
+                    return;
+                }
             }
             let _ = a.read_stdout();
             let _ = b.read_stdout();
@@ -237,6 +254,9 @@ impl C10 {
         let style = rng.below(2);
         let before_full = full_state(&mut a, false);
         let before_book = bookkeeping(&a);
+        // an earlier program that failed while running is still suspended at its failing instruction; submitting any
+        // source (accepted or not) abandons it, which moves the instruction pointer: later sources cannot tell
+        let suspended = a.is_running();
         let (phase, res) = submit_phased(&mut a, &r, style);
         log.push(format!("R  [{}] {}", if style == 0 { "eval" } else { "compile+run" }, r));
         let rejected_text = match &res {
@@ -270,7 +290,7 @@ impl C10 {
         }
         let after_full = full_state(&mut a, false);
         for (x, y) in before_full.iter().zip(after_full.iter()) {
-            if x.0 == "bookkeeping" {
+            if x.0 == "bookkeeping" || (suspended && x.0 == "ip") {
                 continue; // source counter and instruction meter legitimately move
             }
             if x.1 != y.1 {
